@@ -68,8 +68,34 @@ func (e *c02Epochs) open() {
 	}
 	e.r = r
 	e.next = r.S()
-	e.saved = map[int][]byte{}
-	e.lastFirst = 0
+	if e.saved == nil {
+		e.saved = map[int][]byte{}
+	}
+	// (a restart on the file store continues the epoch: what was saved before stays saved)
+}
+
+// wholeEpoch: every number handed out in the current epoch still answers with the bytes saved
+// under it (later saves, refreshes and restarts do not disturb earlier messages).
+func (e *c02Epochs) wholeEpoch(when string) {
+	if !e.persist || len(e.saved) == 0 {
+		return
+	}
+	got, err := e.r.Store().GetMessages(1, e.next-1)
+	if err != nil {
+		vk.Violation(e.t, e.c, "C02/epoch-not-retrievable/"+e.storeKind, "%s: GetMessages(1,%d): %v\n%s", when, e.next-1, err, e.history())
+	}
+	byNum := map[int][]byte{}
+	for _, b := range got {
+		fs, _ := fixwire.Scan(b, map[int]int{212: 213})
+		if n, ok := fixwire.GetInt(fs, 34); ok {
+			byNum[n] = b
+		}
+	}
+	for n, want := range e.saved {
+		if have, ok := byNum[n]; !ok || !bytes.Equal(have, want) {
+			vk.Violation(e.t, e.c, "C02/epoch-not-retrievable/"+e.storeKind, "%s: number %d was saved as %s, the store now answers %s (present %v)\n%s", when, n, vk.Show(want), vk.Show(have), ok, e.history())
+		}
+	}
 }
 
 // after checks one step's trace entries against the model.
@@ -155,7 +181,7 @@ func c02EpochsProperty(t *rapid.T) {
 	if !e.persist {
 		e.cfg.Settings[config.PersistMessages] = "N"
 	}
-	for _, k := range []string{config.ResetOnLogon, config.ResetOnLogout, config.ResetOnDisconnect} {
+	for _, k := range []string{config.ResetOnLogon, config.ResetOnLogout, config.ResetOnDisconnect, config.RefreshOnLogon} {
 		if rapid.IntRange(0, 4).Draw(t, k) == 0 {
 			e.cfg.Settings[k] = "Y"
 		}
@@ -254,11 +280,13 @@ func c02EpochsProperty(t *rapid.T) {
 			e.open()
 			e.logf("restart on the file store (next out %d)", e.r.S())
 			e.feat["restart"] = true
+			e.wholeEpoch("after a restart")
 			if e.r.S() != want {
 				vk.Violation(t, c, "C02/next-number-not-one-past-highest", "after a restart the store says next %d, one past the highest number handed out is %d\n%s", e.r.S(), want, e.history())
 			}
 		},
 	})
+	e.wholeEpoch("at the end of the history")
 	c.Eval()
 	c.Class("epochs:store:" + e.storeKind)
 	for k := range e.feat {
